@@ -630,6 +630,12 @@ std::vector<float> MatrixCreator::solve(float tolerance, int maxIterations) {
   solver.setTolerance(tolerance);
   solver.setMaxIterations(maxIterations);
   Eigen::Matrix<float, -1, 1> res = solver.solveWithGuess(rhs, initial);
+  if (!res.allFinite()) {
+    // Conjugate gradient breaks down (division by zero) on singular systems,
+    // i.e. nets without any fixed pin, when the right-hand side is nothing but
+    // rounding noise: keep the initial guess rather than returning NaN
+    res = initial;
+  }
   // Copy to a std::vector and remove the fake cells
   std::vector<float> ret;
   ret.resize(matSize());
